@@ -31,15 +31,19 @@ CONSTANTS Classes,     \* sender classes of the outer stanza
           Inners,      \* inner message kinds
           Gens,        \* {"v1","v2"}: QXmppCarbonManager / QXmppCarbonManagerV2
           JidCfgs,     \* configured-JID variants of the client
+          Hows,        \* ways the application re-configures the account of a live client object (may be {})
           MaxHist
 
-VARIABLES gen, jidcfg,
+VARIABLES gen,
+          jidcfg,          \* the JID the client object is configured with *now*
+          prev,            \* the JID it was configured with before the last Reconfigure ("none": never re-configured)
+          lasthow,         \* ghost: how the last Reconfigure was done ("none": never); influences nothing
           last,            \* what the application was shown for the last stanza
           unwrappedFrom,   \* ghost: classes from which a wrapper was unwrapped
           hist
 
-mvars == <<gen, jidcfg, last, unwrappedFrom>>
-vars  == <<mvars, hist>>
+mvars == <<gen, jidcfg, prev, last, unwrappedFrom>>
+vars  == <<mvars, lasthow, hist>>
 
 (* --- vocabulary ----------------------------------------------------------- *)
 AllClasses ==
@@ -57,7 +61,14 @@ AllClasses ==
      "Contact",         \* some other bare JID
      "ContactFull",     \* some other full JID
      "OwnAsResource",   \* other bare JID with the own bare JID as resource: evil@x.org/me@example.org
-     "Homoglyph"}       \* visually identical, different code points
+     "Homoglyph",       \* visually identical, different code points
+     "PreviousOwnBare"} \* the bare JID this client object was configured with before the application switched
+                        \* accounts: now an ordinary foreign address (exists only after such a switch)
+
+\* "plain" (me@example.org/dev1) and "nores" (me@example.org) are the same account; "mixed" is another one
+SameAccount(a, b) == a = b \/ {a, b} \subseteq {"plain", "nores"}
+\* the class PreviousOwnBare denotes an address (different from the own one) only after a switch of account
+ClassExists(c) == c = "PreviousOwnBare" => (prev # "none" /\ ~SameAccount(prev, jidcfg))
 
 \* classes that denote the user's own bare address (XMPP addresses compare modulo case folding)
 OwnBareClasses == {"OwnBare", "OwnBareCase"}
@@ -90,6 +101,7 @@ NoShow == [what |-> "nothing", fwd |-> FALSE, dir |-> "plain"]
 
 Init ==
     /\ gen \in Gens /\ jidcfg \in JidCfgs
+    /\ prev = "none" /\ lasthow = "none"
     /\ last = NoShow
     /\ unwrappedFrom = {}
     /\ hist = <<>>
@@ -104,6 +116,7 @@ Unwraps(c, w) == HasInner(w) /\ c = "OwnBare" /\ FirstCarbonChildIsWrapper(gen, 
 
 (* --- the one handler: a <message/> arrives -------------------------------- *)
 Recv(c, w, i) ==
+    /\ ClassExists(c)
     /\ Log([a |-> "Recv", c |-> c, w |-> w, i |-> i])
     /\ IF Unwraps(c, w)
        THEN \* handleStanza: parse the inner message, flag it, present it, swallow the outer stanza
@@ -112,9 +125,20 @@ Recv(c, w, i) ==
        ELSE \* handleStanza returns false: the outer stanza goes down the ordinary message path
             /\ last' = [what |-> "outer", fwd |-> FALSE, dir |-> "plain"]
             /\ UNCHANGED unwrappedFrom
-    /\ UNCHANGED <<gen, jidcfg>>
+    /\ UNCHANGED <<gen, jidcfg, prev, lasthow>>
 
-Next == \E c \in Classes : \E w \in Wrappers : \E i \in Inners : Recv(c, w, i)
+(* --- the application changes the account of the same client object -------- *)
+\* (environment move between two stanzas: configuration().setJid(), setUser()+setDomain(), assigning a new
+\* configuration object, ...).  From then on "own bare JID" means the new one: every sender class of a later
+\* Recv is relative to jidcfg', and the old bare JID is just somebody else's address.
+Reconfigure(j, how) ==
+    /\ j # jidcfg
+    /\ Log([a |-> "Reconfigure", j |-> j, how |-> how, from |-> jidcfg])
+    /\ prev' = jidcfg /\ jidcfg' = j /\ lasthow' = how
+    /\ UNCHANGED <<gen, last, unwrappedFrom>>
+
+Next == \/ \E c \in Classes : \E w \in Wrappers : \E i \in Inners : Recv(c, w, i)
+        \/ \E j \in JidCfgs : \E how \in Hows : Reconfigure(j, how)
 
 Spec == Init /\ [][Next]_vars
 
@@ -133,15 +157,16 @@ OnlyOwnBare == unwrappedFrom \subseteq {"OwnBare"}
 ExactInner  == last.what = "inner" => last.fwd
 OuterPlain  == last.what = "outer" => ~last.fwd
 TypeOK ==
-    /\ gen \in Gens /\ jidcfg \in JidCfgs
+    /\ gen \in Gens /\ jidcfg \in JidCfgs /\ prev \in JidCfgs \cup {"none"} /\ prev # jidcfg
     /\ last.what \in {"nothing", "inner", "outer"} /\ last.fwd \in BOOLEAN
     /\ unwrappedFrom \subseteq Classes
 
 \* action property: whenever a step shows inner content, that step's outer sender was the own bare JID
-NeverFromOthers == [][last'.what = "inner" => hist'[Len(hist')].c = "OwnBare"]_vars
+NeverFromOthers == [][(hist'[Len(hist')].a = "Recv" /\ last'.what = "inner") => hist'[Len(hist')].c = "OwnBare"]_vars
 
 Reinit(g, j) ==
     /\ gen' = g /\ jidcfg' = j
+    /\ prev' = "none" /\ lasthow' = "none"
     /\ last' = NoShow
     /\ unwrappedFrom' = {}
     /\ hist' = <<>>
@@ -149,4 +174,13 @@ Reinit(g, j) ==
 Bound == Len(hist) <= MaxHist
 View  == mvars                  \* MC: state identity without history
 TourView == <<gen, jidcfg>>     \* tour: one source state per client configuration
+
+\* Tour after a switch of account: every behaviour is  Recv(OwnBare, sent, .) -- the handler reads the
+\* configured bare JID once --, then one Reconfigure(j, how), then one Recv of the tour.
+ReconfPhase == IF Len(hist) < 2 THEN Len(hist) ELSE 2
+ReconfView  == <<gen, jidcfg, prev, lasthow, ReconfPhase>>
+ReconfShape ==
+    CASE Len(hist) = 0 -> hist'[1].a = "Recv" /\ hist'[1].c = "OwnBare" /\ hist'[1].w = "sent"
+      [] Len(hist) = 1 -> hist'[2].a = "Reconfigure"
+      [] OTHER         -> hist'[Len(hist')].a = "Recv"
 =============================================================================
